@@ -4,6 +4,7 @@ package mc
 
 import (
 	"fmt"
+	"os"
 	"time"
 
 	"cosmossdk.io/math"
@@ -16,9 +17,18 @@ import (
 // to exactly the position's health, one quantum (1e-18) below and one above, and likewise the
 // stop-loss / take-profit price to exactly the market price ± one quantum; then a THIRD PARTY sends
 // the real MsgClosePositions through the router on the same context. Allowed at "health <= factor"
-// / "price reached", forbidden one quantum on the other side.
+// / "price reached" (allowed, not demanded: the statement only says "only if"), forbidden one
+// quantum on the other side. Opens: each open / consolidating re-open / collateral top-up of the
+// menu is run once to learn the health it ends with, then again with the safety factor at exactly
+// that health and one quantum either side; a SUCCESSFUL open must leave health strictly above.
+
+// c10kClosures / c10kOpens: how many of the boundary cases really closed / really opened (evidence
+// against vacuity; set by the last c10kAll call).
+var c10kClosures, c10kOpens int64
 
 func c10kAll() (cases int64, findings []foundViolation) {
+	var closures, opens int64
+	defer func() { c10kClosures, c10kOpens = closures, opens }()
 	w := NewWorld(FixtureCfg{})
 	defer w.Close()
 	BuildRoot(w, "R1", NewOpLib())
@@ -113,7 +123,10 @@ func c10kAll() (cases int64, findings []foundViolation) {
 			deliver(c, &perptypes.MsgClosePositions{Creator: bot, Liquidate: []perptypes.PositionRequest{{Address: m.Address, Id: m.Id}}})
 			_, gerr := k.GetMTP(c, owner, m.Id)
 			still := gerr == nil
-			if still == d.close {
+			if !still {
+				closures++
+			}
+			if !still && !d.close {
 				report("liquidation_boundary", "module=perp,side="+m.Position.String()+","+d.name, fmt.Sprintf("perpetual position %d with health %s and safety factor %s: closed by a third party = %v, expected %v", m.Id, h, d.sf, !still, d.close), d.name)
 			}
 		}
@@ -155,8 +168,184 @@ func c10kAll() (cases int64, findings []foundViolation) {
 				_, gerr := k.GetMTP(c, owner, m.Id)
 				still := gerr == nil
 				name := fmt.Sprintf("%s=price%+d quantum", list, off)
-				if still == reached {
+				if !still {
+					closures++
+				}
+				if !still && !reached {
 					report("trigger_boundary", "module=perp,side="+m.Position.String()+","+name, fmt.Sprintf("perpetual %s position %d, market price %s, %s %s: closed by a third party = %v, trigger reached = %v", m.Position, m.Id, price, list, trig, !still, reached), name)
+				}
+			}
+		}
+	}
+	// ---- opens: safety factor at exactly the health the open ends with
+	type openCase struct {
+		name string
+		msg  func() sdk.Msg
+	}
+	atom := w.Env.Atom
+	var ocs []openCase
+	for _, lev := range []string{"1", "1.5", "2", "3", "5", "9"} {
+		lev := lev
+		ocs = append(ocs,
+			openCase{"llp.open(t2,x" + lev + ")", func() sdk.Msg { return llpOpen(w.A("t2"), lev, 1e9, "0") }},
+			openCase{"llp.open(t1,x" + lev + ",consolidating)", func() sdk.Msg { return llpOpen(w.A("t1"), lev, 5e8, "0") }},
+		)
+	}
+	for _, lev := range []string{"0", "1.5", "2", "3", "5", "9"} {
+		lev := lev
+		ocs = append(ocs,
+			openCase{"perp.open(t3,long,x" + lev + ")", func() sdk.Msg {
+				return perpOpen(w.A("t3"), perptypes.Position_LONG, lev, C("uusdc", 1e9), mulDecStr(atom, "1.6"))
+			}},
+			openCase{"perp.open(t3,long,atom_collateral,x" + lev + ")", func() sdk.Msg {
+				return perpOpen(w.A("t3"), perptypes.Position_LONG, lev, C("uatom", 2e8), mulDecStr(atom, "1.6"))
+			}},
+			openCase{"perp.open(t3,short,x" + lev + ")", func() sdk.Msg {
+				return perpOpen(w.A("t3"), perptypes.Position_SHORT, lev, C("uusdc", 1e9), mulDecStr(atom, "0.4"))
+			}},
+			openCase{"perp.open(t1,long,x" + lev + ",consolidating)", func() sdk.Msg {
+				return perpOpen(w.A("t1"), perptypes.Position_LONG, lev, C("uusdc", 5e8), mulDecStr(atom, "1.6"))
+			}},
+			openCase{"perp.open(t2,short,x" + lev + ",consolidating)", func() sdk.Msg {
+				return perpOpen(w.A("t2"), perptypes.Position_SHORT, lev, C("uusdc", 5e8), mulDecStr(atom, "0.4"))
+			}},
+		)
+	}
+	// health of the position the message touched, (a) as stored by the handler, (b) recomputed from
+	// the state the handler left
+	healthAfter := func(c sdk.Context, msg sdk.Msg) (stored, recomputed math.LegacyDec, ok bool) {
+		switch m := msg.(type) {
+		case *llptypes.MsgOpen:
+			var last *llptypes.Position
+			for _, p := range w.App.LeveragelpKeeper.GetAllPositions(c) {
+				p := p
+				if p.Address == m.Creator && p.AmmPoolId == m.AmmPoolId {
+					last = &p
+				}
+			}
+			if last == nil {
+				return
+			}
+			h, err := w.App.LeveragelpKeeper.GetPositionHealth(c, *last)
+			if err != nil {
+				return
+			}
+			return last.PositionHealth, h, true
+		case *perptypes.MsgOpen:
+			k := w.App.PerpetualKeeper
+			var last *perptypes.MTP
+			for _, p := range k.GetAllMTPs(c) {
+				p := p
+				if p.Address == m.Creator && p.Position == m.Position && p.AmmPoolId == m.PoolId {
+					if last == nil || p.Id > last.Id {
+						last = &p
+					}
+				}
+			}
+			if last == nil {
+				return
+			}
+			ammPool, err := k.GetAmmPool(c, last.AmmPoolId)
+			if err != nil {
+				return
+			}
+			h, err := k.GetMTPHealth(c, *last, ammPool, "uusdc")
+			if err != nil {
+				return
+			}
+			return last.MtpHealth, h, true
+		}
+		return
+	}
+	setSF := func(c sdk.Context, msg sdk.Msg, sf math.LegacyDec) bool {
+		switch msg.(type) {
+		case *llptypes.MsgOpen:
+			prm := w.App.LeveragelpKeeper.GetParams(c)
+			prm.SafetyFactor = sf
+			return w.App.LeveragelpKeeper.SetParams(c, &prm) == nil
+		default:
+			prm := w.App.PerpetualKeeper.GetParams(c)
+			prm.SafetyFactor = sf
+			return w.App.PerpetualKeeper.SetParams(c, &prm) == nil
+		}
+	}
+	for _, oc := range ocs {
+		ctx := base()
+		dry, _ := ctx.CacheContext()
+		msg := oc.msg()
+		if err := deliver(dry, msg); err != nil {
+			if os.Getenv("VERIF_DEBUG_C10K") != "" {
+				fmt.Println("C10K open refused at the configured factor:", oc.name, err)
+			}
+			continue
+		}
+		hs, hr, ok := healthAfter(dry, msg)
+		if !ok {
+			continue
+		}
+		if os.Getenv("VERIF_DEBUG_C10K") != "" {
+			fmt.Println("C10K", oc.name, "stored", hs, "recomputed", hr)
+			if pm, ok := msg.(*perptypes.MsgOpen); ok {
+				ad := sdk.MustAccAddressFromBech32(pm.Creator)
+				_, t0 := w.App.TierKeeper.GetMembershipTier(ctx, ad)
+				_, t1 := w.App.TierKeeper.GetMembershipTier(dry, ad)
+				fmt.Println("   tier before", t0.Discount, "after", t1.Discount)
+			}
+		}
+		seen := map[string]bool{}
+		for bi, b0 := range []math.LegacyDec{hs, hr} {
+			for _, off := range []int64{-1, 0, 1} {
+				sf := b0.Add(q.MulInt64(off))
+				if seen[sf.String()] || !sf.IsPositive() {
+					continue
+				}
+				seen[sf.String()] = true
+				c, _ := ctx.CacheContext()
+				if !setSF(c, msg, sf) {
+					continue
+				}
+				cases++
+				if err := deliver(c, oc.msg()); err != nil {
+					continue
+				}
+				opens++
+				s2, r2, ok := healthAfter(c, msg)
+				if !ok {
+					continue
+				}
+				if s2.LTE(sf) || r2.LTE(sf) {
+					// mechanism: did the handler's own gate see a health at or below the factor, or did it see a
+					// healthy position that the state it left (hooks included) no longer shows?
+					mech := "gate_admitted_health_at_or_below_factor"
+					if s2.GT(sf) {
+						mech = "health_seen_by_gate_above_factor_but_health_of_state_left_not"
+					}
+					// what it means: can a third party force-close it in the very same block?
+					closedNow := false
+					switch m := msg.(type) {
+					case *perptypes.MsgOpen:
+						before := len(w.App.PerpetualKeeper.GetAllMTPs(c))
+						var reqs []perptypes.PositionRequest
+						for _, p := range w.App.PerpetualKeeper.GetAllMTPs(c) {
+							if p.Address == m.Creator {
+								reqs = append(reqs, perptypes.PositionRequest{Address: p.Address, Id: p.Id})
+							}
+						}
+						deliver(c, &perptypes.MsgClosePositions{Creator: bot, Liquidate: reqs})
+						closedNow = len(w.App.PerpetualKeeper.GetAllMTPs(c)) < before
+					case *llptypes.MsgOpen:
+						before := len(w.App.LeveragelpKeeper.GetAllPositions(c))
+						var reqs []*llptypes.PositionRequest
+						for _, p := range w.App.LeveragelpKeeper.GetAllPositions(c) {
+							if p.Address == m.Creator {
+								reqs = append(reqs, &llptypes.PositionRequest{Address: p.Address, Id: p.Id})
+							}
+						}
+						deliver(c, &llptypes.MsgClosePositions{Creator: bot, Liquidate: reqs})
+						closedNow = len(w.App.LeveragelpKeeper.GetAllPositions(c)) < before
+					}
+					name := fmt.Sprintf("%s,factor=%s%+d quantum", oc.name, map[int]string{0: "stored_health", 1: "state_health"}[bi], off)
+					report("open_boundary", "mech="+mech+","+name, fmt.Sprintf("%s succeeded with safety factor %s and left the position with health %s (stored by the handler) / %s (recomputed from the state it left): not strictly above the factor; a third party's MsgClosePositions{Liquidate} in the same block closed it: %v", oc.name, sf, s2, r2, closedNow), name)
 				}
 			}
 		}
